@@ -3,14 +3,19 @@
 Sub-checks
   matrix   EXHAUSTIVE for nesting depth <= 1: catalogue of exception classes (builtins with 0-5 args, user
            classes with attributes / keyword-only / arity-changing / argument-transforming constructors,
-           GlomError subclasses of the same kinds, BaseException subclasses) and glom-detected failures
+           GlomError subclasses of the same kinds, user subclasses of glom's own error classes with the
+           inherited and with their own constructors, classes whose instances refuse attribute assignment
+           (frozen dataclasses, raising __setattr__), BaseException subclasses) and glom-detected failures
            x wrapper x default in {absent, object, None, T} x skip_exc in {absent, the class, a base,
            an unrelated class, a tuple, ()} x glom_debug in {False, True}
   deep     generated: the same fault planted at a random depth (<= 4) of nested dict / list / tuple /
            Pipe / Spec / Call / Invoke / non-catching Coalesce specs, same keyword matrix sampled
   reentrant  the fault raised inside a nested glom() call made from a callable (key functions, Spec.glom)
+  mutsite  ENUMERATED: the fault raised by the user's container inside Assign / Delete with a T-style last step;
+           for Delete x ignore_missing x whether the addressed element is present (readable)
 """
 import itertools
+import dataclasses
 
 from hypothesis import strategies as st
 
@@ -27,7 +32,7 @@ import re
 ADDR = re.compile(r' at 0x[0-9a-f]+')
 
 PROPERTY = 'C04'
-RULE = ('one fault site per case: a probe raising an instance from a 30-class catalogue, or a spec that makes glom itself fail '
+RULE = ('one fault site per case: a probe raising an instance from a 51-class catalogue, or a spec that makes glom itself fail '
         'with each documented error; nested at depth 0-4 in dict/list/tuple/Pipe/Spec/Call/Invoke/Coalesce(non-catching); '
         'x default x skip_exc x glom_debug. Depth <= 1 is enumerated completely. '
         'Non-trivial = fault depth >= 2, or a non-builtin class, or a non-empty keyword set.')
@@ -35,6 +40,10 @@ ASSUMPTIONS = [
     '"can be rebuilt from its args": type(e)(*e.args) succeeds and has the same args',
     'exceptions raised by registered accessors inside a path step are PathAccessErrors by C01 and are not fault sites here',
     'BaseException subclasses that are not Exceptions propagate as the same object unless skip_exc names them',
+    'mutsite: IndexError / KeyError out of the container\'s __delitem__ and AttributeError out of its __delattr__ are the '
+    'documented "could not delete" failures: detected by glom, PathDeleteError carrying the container\'s exception, and '
+    'default / skip_exc are decided on the PathDeleteError; ignore_missing=True forgives them only for an element that is '
+    'missing (a LookupError says so itself; otherwise: the element cannot be read either)',
 ]
 
 
@@ -120,6 +129,121 @@ class Cancelled(BaseException):
     pass
 
 
+# -- user subclasses of glom's OWN error classes ("callers' except clauses keep working": `except WrongKind`), with the
+#    inherited constructor and with constructors of their own (the inherited copy / re-creation recipe does not fit those)
+
+class WrongKind(TypeMatchError):
+    pass
+
+
+class WrongKindField(TypeMatchError):
+    def __init__(self, field, actual, expected):
+        TypeMatchError.__init__(self, actual, expected)
+        self.field = field
+
+
+class WrongKindHint(TypeMatchError):
+    def __init__(self, actual, expected=int, *, hint=None):
+        TypeMatchError.__init__(self, actual, expected)
+        self.hint = hint
+
+
+class NoMatch(MatchError):
+    pass
+
+
+class NoMatchField(MatchError):
+    def __init__(self, field):
+        MatchError.__init__(self, 'field {0!r} did not match', field)
+        self.field = field
+
+
+class Missing(PathAccessError):
+    pass
+
+
+class MissingKey(PathAccessError):
+    def __init__(self, key):
+        PathAccessError.__init__(self, KeyError(key), Path(key), 0)
+        self.key = key
+
+
+class Invalid(CheckError):
+    pass
+
+
+class InvalidField(CheckError):
+    def __init__(self, field, *, code=0):
+        CheckError.__init__(self, ['field %s is invalid' % field], Check(type=int), Path(field))
+        self.code = code
+
+
+class NoneOf(CoalesceError):
+    pass
+
+
+class CannotDelete(PathDeleteError):
+    pass
+
+
+class CannotAssignKw(PathAssignError):
+    def __init__(self, *, name):
+        PathAssignError.__init__(self, ValueError(name), Path(), name)
+
+
+class CannotFold(FoldError):
+    pass
+
+
+class UnsupportedOp(UnregisteredTarget):
+    def __init__(self, op):
+        UnregisteredTarget.__init__(self, op, object, {}, Path())
+
+
+GLOM_SUBCLASSES = ['WrongKind', 'WrongKindField', 'WrongKindHint', 'NoMatch', 'NoMatchField', 'Missing', 'MissingKey',
+                   'Invalid', 'InvalidField', 'NoneOf', 'CannotDelete', 'CannotAssignKw', 'CannotFold', 'UnsupportedOp']
+
+
+# -- classes whose instances refuse attribute assignment: frozen dataclasses, a __setattr__ that raises (immutable
+#    value-object errors); both GlomError subclasses and plain exceptions
+
+@dataclasses.dataclass(frozen=True)
+class GFrozen(GlomError):
+    code: int
+
+
+@dataclasses.dataclass(frozen=True)
+class GFrozenPath(PathAccessError):
+    """a frozen subclass of one of glom's own classes, with a constructor of its own"""
+    key: str
+
+    def get_message(self):
+        return 'no key %r' % (self.key,)
+
+
+class GNoSetattr(GlomError):
+    def __setattr__(self, k, v):
+        raise AttributeError('%s is read-only' % type(self).__name__)
+
+
+class GNoSetattrT(GlomError):
+    def __setattr__(self, k, v):
+        raise TypeError('%s does not support attribute assignment' % type(self).__name__)
+
+
+@dataclasses.dataclass(frozen=True)
+class UFrozen(Exception):
+    code: int
+
+
+class UNoSetattr(Exception):
+    def __setattr__(self, k, v):
+        raise AttributeError('%s is read-only' % type(self).__name__)
+
+
+SETATTR_REFUSING = ['GFrozen', 'GFrozenPath', 'GNoSetattr', 'GNoSetattrT', 'UFrozen', 'UNoSetattr']
+
+
 class Unrelated(Exception):
     pass
 
@@ -131,6 +255,7 @@ CATALOGUE = {
     'KeyError': lambda: KeyError('k'),
     'IndexError': lambda: IndexError(3),
     'AttributeError': lambda: AttributeError('no attr'),
+    'FrozenInstanceError': lambda: dataclasses.FrozenInstanceError("cannot delete field 'attr'"),
     'TypeError': lambda: TypeError('wrong type'),
     'ZeroDivisionError': lambda: ZeroDivisionError('division by zero'),
     'OSError': lambda: OSError(2, 'No such file'),
@@ -155,6 +280,26 @@ CATALOGUE = {
     'KeyboardInterrupt': lambda: KeyboardInterrupt(),
     'Cancelled': lambda: Cancelled('stop'),
     'GeneratorExit': lambda: GeneratorExit(),
+    'WrongKind': lambda: WrongKind(str, int),
+    'WrongKindField': lambda: WrongKindField('age', str, int),
+    'WrongKindHint': lambda: WrongKindHint(str, hint='digits only'),
+    'NoMatch': lambda: NoMatch('{0!r} does not match {1!r}', 1, 2),
+    'NoMatchField': lambda: NoMatchField('age'),
+    'Missing': lambda: Missing(KeyError('k'), Path('a', 'k'), 1),
+    'MissingKey': lambda: MissingKey('k'),
+    'Invalid': lambda: Invalid(['not valid'], Check(type=int), Path('a')),
+    'InvalidField': lambda: InvalidField('age', code=7),
+    'NoneOf': lambda: NoneOf(Coalesce('x', 'y'), [ValueError('v'), 3], Path('a')),
+    'CannotDelete': lambda: CannotDelete(KeyError('k'), Path('a'), 'k'),
+    'CannotAssignKw': lambda: CannotAssignKw(name='k'),
+    'CannotFold': lambda: CannotFold('cannot fold', 5),
+    'UnsupportedOp': lambda: UnsupportedOp('iterate'),
+    'GFrozen': lambda: GFrozen(5),
+    'GFrozenPath': lambda: GFrozenPath('k'),
+    'GNoSetattr': lambda: GNoSetattr('read-only glom error', 1),
+    'GNoSetattrT': lambda: GNoSetattrT('read-only glom error'),
+    'UFrozen': lambda: UFrozen(5),
+    'UNoSetattr': lambda: UNoSetattr('read-only error', 2),
 }
 
 # glom-detected failures: name -> (target recipe, spec factory, documented class)
@@ -305,7 +450,10 @@ def judge(where, kw, orig, outcome, marker, detected_cls=None):
                            % (where, orig, e, type(e).__name__))
         return 'debug'
     if not isinstance(e, type(orig)):
-        raise Mismatch('class-lost', '%s: raised %r (%s) is not an instance of the original class %s'
+        # two buckets, so that one does not hide the other in the report: the error came out as an instance of a BASE of
+        # its class (`except WrongKind` no longer catches it), or something unrelated took its place
+        raise Mismatch('class-downgraded' if isinstance(orig, type(e)) else 'class-lost',
+                       '%s: raised %r (%s) is not an instance of the original class %s'
                        % (where, e, type(e).__name__, type(orig).__name__))
     same_args = (e.args == orig.args) if detected_cls is None else (ADDR.sub('', repr(e.args)) == ADDR.sub('', repr(orig.args)))
     if not same_args:
@@ -377,6 +525,17 @@ def _rewrap(spec, wrappers, name):
     return spec
 
 
+def class_labels(name):
+    """the catalogue classes that are generated on purpose: user subclasses of glom's own error classes, and classes whose
+    instances refuse attribute assignment"""
+    labs = []
+    if name in GLOM_SUBCLASSES or name == 'GFrozenPath':
+        labs.append('cls-glom-subclass')
+    if name in SETATTR_REFUSING:
+        labs.append('cls-setattr-refusing')
+    return labs
+
+
 def pep479(name, wrappers):
     """a StopIteration raised inside a generator frame becomes RuntimeError in Python itself"""
     return name == 'StopIteration' and 'iter' in wrappers
@@ -397,6 +556,7 @@ def check_case(recipe, ctx):
     res = run_case(name, recipe['wrappers'], recipe['default'], recipe['skip'], recipe['debug'])
     ctx.label('outcome-' + res, 'depth-%d' % min(len([w for w in recipe['wrappers'] if w != 'none']), 4),
               'detected' if name in DETECTED else 'injected')
+    ctx.label(*class_labels(name))
     builtin = name in CATALOGUE and type(CATALOGUE[name]()).__module__ == 'builtins'
     ctx.nontrivial(len(recipe['wrappers']) >= 2 or not builtin or recipe['default'] != 'absent' or recipe['skip'] != 'absent')
     ctx.outcome([name, recipe['wrappers'], res])
@@ -489,6 +649,7 @@ def check_reentrant(recipe, ctx):
         # ... and the outer call against the error leaving the outermost nested call
         res = judge(where, kw, reached, outcome, marker)
     ctx.label('outcome-' + res, 'how-' + how)
+    ctx.label(*class_labels(name))
     ctx.nontrivial(True)
     ctx.outcome([name, how, res])
 
@@ -498,10 +659,14 @@ def check_reentrant(recipe, ctx):
 # Delete / Assign with a T-style final step (plain Python statement, no registered handler in between)
 
 class FaultyBox(object):
-    def __init__(self, name):
+    """every mutating method raises the planted error.  `readable` decides whether the element that the mutation
+    addresses is PRESENT: box.attr / box['k'] can be read, or reading fails the ordinary way (AttributeError / KeyError)"""
+    def __init__(self, name, readable=True):
         object.__setattr__(self, '_name', name)
+        object.__setattr__(self, '_readable', readable)
         object.__setattr__(self, 'raised', [])
-        object.__setattr__(self, 'attr', 1)
+        if readable:
+            object.__setattr__(self, 'attr', 1)
 
     def _boom(self):
         e = CATALOGUE[self._name]()
@@ -515,6 +680,8 @@ class FaultyBox(object):
         self._boom()
 
     def __getitem__(self, k):
+        if not self._readable:
+            raise KeyError(k)
         return 1
 
     def __delattr__(self, k):
@@ -529,12 +696,50 @@ def enum_mutsite(tier):
         for how in ('delitem', 'delattr', 'setitem', 'setattr'):
             for default, skip, debug in itertools.product(['absent', 'object'], ['absent', 'class', 'unrelated'], [False, True]):
                 for ign in (False, True):
-                    yield {'name': name, 'how': how, 'default': default, 'skip': skip, 'debug': debug, 'ignore_missing': ign}
+                    for readable in ((True, False) if how.startswith('del') else (True,)):
+                        yield {'name': name, 'how': how, 'default': default, 'skip': skip, 'debug': debug,
+                               'ignore_missing': ign, 'readable': readable}
+
+
+def judge_translated(where, kw, orig, outcome, marker, dest_name):
+    """the deletion failed in the way the Delete docs translate ("If a target path is missing, a PathDeleteError will be
+    raised"; PathDeleteError: "deleting a read-only @property or exception being raised inside a __delattr__()"): the
+    failure is detected by glom itself, so the error at its origin is the documented PathDeleteError carrying the
+    container's exception; default / skip_exc are decided on it"""
+    if 'skip_exc' in kw:
+        eff = kw['skip_exc']
+    elif 'default' in kw:
+        eff = GlomError
+    else:
+        eff = ()
+    if eff != () and issubclass(PathDeleteError, eff):
+        if outcome[0] != 'ok':
+            raise Mismatch('default-not-returned', '%s: PathDeleteError matches skip_exc=%r, expected the default, got %r'
+                           % (where, eff, outcome[1]))
+        if outcome[1] is not kw.get('default', None):
+            raise Mismatch('default-not-identical', '%s: expected the default object itself, got %r' % (where, outcome[1]))
+        return 'swallowed'
+    if outcome[0] == 'ok':
+        raise Mismatch('error-swallowed', '%s: the deletion failed with %r (PathDeleteError does not match the effective '
+                       'skip_exc %r) but glom returned %r' % (where, orig, eff, outcome[1]))
+    e = outcome[1]
+    if type(e) is not PathDeleteError:
+        raise Mismatch('wrong-documented-class', '%s: expected PathDeleteError wrapping %r, got %r (%s)'
+                       % (where, orig, e, type(e).__name__))
+    if len(e.args) != 3 or e.args[0] is not orig or e.args[2] != dest_name:
+        raise Mismatch('args-changed', '%s: expected PathDeleteError(<the %s raised by the container>, <path>, %r), got args %r'
+                       % (where, type(orig).__name__, dest_name, e.args))
+    try:
+        str(e)
+    except Exception as e2:
+        raise Mismatch('str-raises', '%s: str() of the raised error raises %r' % (where, e2))
+    return 'raised'
 
 
 def check_mutsite(recipe, ctx):
     name, how = recipe['name'], recipe['how']
-    box = FaultyBox(name)
+    readable = recipe.get('readable', True)
+    box = FaultyBox(name, readable)
     target = {'box': box}
     if how == 'delitem':
         spec = Delete(T['box']['k'], ignore_missing=recipe['ignore_missing'])
@@ -547,7 +752,10 @@ def check_mutsite(recipe, ctx):
     marker = ['default-marker']
     exc_type = type(CATALOGUE[name]())
     kw = make_kwargs(exc_type, recipe['default'], recipe['skip'], recipe['debug'], marker)
-    where = 'glom({box: <container whose %s raises %s>}, %r, %s)' % (how, name, spec, ', '.join('%s=%r' % kv for kv in sorted(kw.items())))
+    where = 'glom({box: <container whose %s raises %s, element %s>}, %r%s, %s)' % (
+        how, name, 'readable' if readable else 'not readable', spec,
+        ' with ignore_missing=True' if how.startswith('del') and recipe['ignore_missing'] else '',
+        ', '.join('%s=%r' % kv for kv in sorted(kw.items())))
     try:
         outcome = ('ok', glom.glom(target, spec, **kw))
     except BaseException as e:
@@ -556,19 +764,29 @@ def check_mutsite(recipe, ctx):
         raise Mismatch('site-calls', '%s: the faulty method ran %d times' % (where, len(box.raised)))
     orig = box.raised[0]
     ctx.nontrivial(True)
-    # the documented translations: a missing key / index / attribute becomes PathDeleteError (or is ignored)
+    ctx.label(*class_labels(name))
+    # the documented translations.  del box['k'] failing with IndexError / KeyError says "no such index / key";
+    # del box.attr failing with AttributeError says "no such attribute" OR "this attribute cannot be deleted" (read-only
+    # property, frozen instance, namedtuple field).  Both become PathDeleteError.  ignore_missing=True ("To ignore missing
+    # targets") forgives the failure only for an element that IS missing: a LookupError is taken at face value (also one
+    # that is an AttributeError as well, like a PathAccessError), any other AttributeError counts as "missing" only if the
+    # attribute cannot be read either; a present element whose deletion is refused stays an error.
     translated = (how == 'delitem' and isinstance(orig, (IndexError, KeyError))) or \
                  (how == 'delattr' and isinstance(orig, AttributeError))
     if translated:
-        ctx.label('translated')
-        if recipe['ignore_missing']:
+        missing = isinstance(orig, LookupError) or not readable
+        if recipe['ignore_missing'] and missing:
+            ctx.label('translated', 'missing-ignored')
             if outcome[0] != 'ok':
-                raise Mismatch('ignore-missing', '%s: %r counts as a missing element, expected it to be ignored; got %r' % (where, orig, outcome[1]))
-        else:
-            judge(where, kw, PathDeleteError(orig, Path(), 'k'), outcome, marker) if False else None
-            if outcome[0] == 'err' and not isinstance(outcome[1], (PathDeleteError, type(orig))):
-                raise Mismatch('class-lost', '%s: expected PathDeleteError, got %r' % (where, outcome[1]))
-        ctx.outcome([name, how, 'translated'])
+                raise Mismatch('ignore-missing', '%s: %r counts as a missing element, expected it to be ignored; got %r'
+                               % (where, orig, outcome[1]))
+            if outcome[1] is not target:
+                raise Mismatch('ignore-missing', '%s: nothing to delete, expected the target back, got %r' % (where, outcome[1]))
+            ctx.outcome([name, how, 'ignored'])
+            return
+        ctx.label('translated', 'refused-present' if recipe['ignore_missing'] else 'translated-strict')
+        res = judge_translated(where, kw, orig, outcome, marker, 'k' if how == 'delitem' else 'attr')
+        ctx.outcome([name, how, 'translated-' + res])
         return
     res = judge(where, kw, orig, outcome, marker)
     ctx.label('outcome-' + res, 'how-' + how)
@@ -683,12 +901,15 @@ def check_rebuild(recipe, ctx):
     ctx.outcome([seq, recipe['wrap']])
 
 
+CLS_FLOORS = {'cls-glom-subclass': 0.12, 'cls-setattr-refusing': 0.045}
+
 SUBS = [
-    Sub('matrix', check_case, enum=enum_matrix),
+    Sub('matrix', check_case, enum=enum_matrix, floors=dict(CLS_FLOORS)),
     Sub('deep', check_case, gen=gen_deep, quick=3000, thorough=15000,
-        floors={'outcome-swallowed': 0.1, 'outcome-raised': 0.1, 'detected': 0.1}),
-    Sub('reentrant', check_reentrant, gen=gen_reentrant, quick=1500, thorough=6000),
+        floors=dict(CLS_FLOORS, **{'outcome-swallowed': 0.1, 'outcome-raised': 0.1, 'detected': 0.09})),
+    Sub('reentrant', check_reentrant, gen=gen_reentrant, quick=1500, thorough=6000, floors=dict(CLS_FLOORS)),
     Sub('samename', check_samename, gen=gen_samename, quick=400, thorough=2000),
     Sub('rebuild', check_rebuild, gen=gen_rebuild, quick=600, thorough=3000, floors={'rebuildable-after-unrebuildable': 0.1}),
-    Sub('mutsite', check_mutsite, enum=enum_mutsite),
+    Sub('mutsite', check_mutsite, enum=enum_mutsite,
+        floors=dict(CLS_FLOORS, **{'missing-ignored': 0.01, 'refused-present': 0.0015})),
 ]
